@@ -1,5 +1,5 @@
-From E2V Require Import Xattr.XattrPack.
+From E2V Require Import Xattr.XattrPack Xattr.XattrSort.
 Require Extraction.
 Require Import ExtrOcamlBasic.
 Extraction Language OCaml.
-Extraction "xattr_model.ml" place fits.
+Extraction "xattr_model.ml" place fits sortedb insert_key sorted_lookup.
